@@ -14,7 +14,8 @@ RULE = ("(A) namespace-well-formed Element trees built through the public API (m
         "settings of prefixes x prettyxml x xstq x sortNamespaces: each namespace-well-formed, all pairwise "
         "infoset-equal; non-trivial = the tree re-declares a prefix / the call needs xsi:type, xsi:nil or a raw "
         "element; distinct = distinct trees / (operation, arguments)"
-        " ; plus: both serializers against the infoset computed from the tree's structure, the theorem's hypothesis evaluated per generated tree, the caller's raw Element left unchanged, a caller-made header using xs / xsi itself")
+        " ; plus: both serializers against the infoset computed from the tree's structure, the theorem's hypothesis evaluated per generated tree, the caller's raw Element left unchanged, a caller-made header using xs / xsi itself"
+        ' ; caller trees that used Element.setnil()')
 ASSUMPTIONS = ["PrefixNormalizer numbers prefixes in set iteration order: the model takes that order from the "
                "observed result (theorems do not depend on it)"]
 PARTIAL = [{"theorem": "normalize_preserves_infoset / refit_preserves_infoset (whole-tree statements)",
